@@ -38,6 +38,10 @@ add("C06", "exhaustive small-scope enumeration of supertrait / where-clause stru
     "Every program from the product of supertrait structures (flat, chain, diamond, cycle), where-clauses on a trait parameter, struct where-clauses and impl subsets; every goal forall<T> { if (H) { G } } for 8 hypothesis sets x 7 conclusions and the hypothesis-free versions; the solver must prove G exactly when G follows from the program and the elaborated hypotheses; histories interleaving both versions on one solver are explored to closure and every answer must equal the fresh-solver answer (no leak).",
     "Trusted: the elaboration rule (trait hypothesis => the trait's where-clauses, FromEnv(type) => the struct's where-clauses, recursively) in harness/src/props/c06.rs.",
     "DESIGN.md §4 C06")
+add("C07", "exhaustive enumeration of coherent associated-type programs x normalization / equality goals against a reference normalizer",
+    "382 programs (subsets of concrete impls, one of five generic impls whose value is a parameter, a projection on the same or another trait, or a type containing a projection, subsets of impls of a second trait, associated type with/without a bound) x goals exists<U> { Normalize(<X as Tr>::X -> U) }, exists<U> { X: Tr<X = U> } and X: Tr<X = Y> for every ground X of depth <= 3 and candidate Y, plus forall / forall-if variants, both solvers: a normalization goal must be Unique with the applicable impl's (normalized) value or None when no impl applies; an equality goal must never be Unique for another type; any unique type must be the value.",
+    "Trusted: REF normalize (unique applicable impl by header match + lfp where-clauses, substitute, normalize nested projections). Answers mentioning an unnormalized alias are counted, not judged (none occur).",
+    "DESIGN.md §4 C07")
 add("C08", "exhaustive enumeration of every type of a bounded universe x 5 built-in traits x programs against structural rules transcribed from the statement",
     "For 48 programs (field lists of a struct x explicit impl sets) with the lang-item traits declared, every closed goal `ty: Sized|Copy|Clone|Tuple|FnPtr` over every type of depth <= 2 plus depth-3 wrappers (ADTs, enum, tuples 0-3, arrays, slices, str, refs, raw pointers, fn pointers, scalars, never, dyn) must be answered Unique/None exactly as the rule set says, by both solvers.",
     "Trusted: the rule transcription in harness/src/props/c08.rs (builtin_rules).",
@@ -98,6 +102,10 @@ add("C22", "exhaustive products of item features rendered to text; two write/par
     "Ten families (ADT attributes and bodies, trait attributes and bodies, impls, opaque types, fn definitions, type forms in every position, name clashes), each a full product of small option lists (1.4*10^5 programs quick, 3.3*10^6 thorough): lower(write(P0)) must be equivalent to P0 (where-clauses as sets, implied trait bound of an equality bound added, names up to a bijection), the second round trip must reproduce text and program exactly where no equality bound or clash is involved, and a collapsed-names pass exercises the disambiguator.",
     "Written by a helper agent; parses with a persistent ProgramParser per thread (same grammar). Four writer mutants (dropped #[marker], dropped `!`, swapped outlives sides, broken disambiguation) were detected. 16 genuine writer omissions/collisions are listed as findings D20/D21.",
     "DESIGN.md §4 C22")
+add("C23", "exhaustive enumeration of goal sequences solved through the recording database; differential oracle between the original program and the printed-and-reparsed one",
+    "For a thinning of the corpus and of the associated-type and auto-trait families, every sequence of length <= 2 (thorough 3) over an alphabet of 4-5 goals is solved on one solver through LoggingRustIrDatabase; its printed program must parse and lower, and the same goals solved on it by a fresh solver of the same kind must give equal decoded answers.",
+    "Answers compared by item name. Goals naming items the solver never asked about (finding D23) cannot be compared.",
+    "DESIGN.md §4 C23")
 add("C24", "exhaustive enumeration of short strings over representative characters, short token sequences spliced into every hole of program skeletons, and every single-edit semantic error of 36 templates; child processes attribute aborts to inputs",
     "2.6*10^6 (quick) / 1.2*10^8 (thorough) inputs through parse_program / parse_goal / parse_ty, Lower::lower, lower_goal and checked_program: every call must return Ok or Err; panics are keyed by file + message; stack overflows/aborts are caught by running shards in child processes and bisecting.",
     "Written by a helper agent. Panics inside checked_program that originate outside parsing/lowering code are reported as notes (C19/C21 territory), not as C24 violations. Invalid UTF-8 is represented by U+FFFD since &str cannot hold it.",
@@ -118,6 +126,11 @@ add("C28", "exhaustive small-scope enumeration with a structural well-formedness
     "Every solution returned by either solver (and every enumerated SLG answer) over the reduced C01 corpus plus goals with lifetime/const unknowns and nested forall is checked: one entry per query variable, matching kinds, bound variables only at the solution's own binder and in range, no universe the query cannot name, no inference variables, and applying it to the query does not panic.",
     "The monitor reads chalk's values through the public visitor API.",
     "DESIGN.md §4 C28")
+
+add("C29", "exhaustive enumeration of ordered type pairs posed as Subtype goals to both solvers, against a variance-algebra reference",
+    "Every ordered pair of types of depth <= 2 (deeper nestings in thorough) over shared/mutable references, fn pointers, tuples and ADTs over a lifetime or a type with each declared variance, lifetimes from {'static, 'a, 'b}: the answer must be Unique exactly when the structures agree, with outlives constraints equal (as a set, modulo duplicates and trivial ones) to those the variance of each position dictates.",
+    "Lifetime-leaf convention is chalk's documented one, as blessed by the pinned tests ref_lifetime_variance and struct_lifetime_variance. None vs Ambiguous on mismatches is not judged.",
+    "DESIGN.md §4 C29")
 
 NOT_YET = "check not built yet in this round (planned: bounded-exhaustive exploration, see DESIGN.md §4)"
 
